@@ -615,3 +615,5 @@ META = {
     "(fixed-width fields).",
     "more": "Also decided: every value a read returns is rooted in the in-memory tail or the file opened under the reader's own ticket; a read cache on the history object must be dropped by every method that rewrites a history file. SQLite backend: the repeat test, the recorded text and the remembered previous text are one expression. The raw append counter is read by len() only (the memory/disk boundary of every index computation starts from len(), which discounts skipped commands); a method that empties the record forgets the remembered previous text. The enumeration hands out history files as the listing spells them and own-file tests compare str with str (known finding: a Path-typed $XONSH_HISTORY_FILE).",
 }
+
+META["more"] += ' The FIFO ticket of a flusher or field reader is given up on exception paths too (try/finally around the work under the ticket).'
